@@ -116,6 +116,16 @@ fn c09_advertise() {
         if now.slt(d).get() {
             cover("recently_served_peer_skipped");
             expected.retain(|x| *x != p);
+            // being skipped must not extend the cool-down: otherwise rounds that come faster than the cool-down
+            // keep pushing the deadline out and the peer is never advertised to again
+            match w.driver.replication_targets.get(&p) {
+                Some(after) => {
+                    check("advertise:skipped_target_keeps_its_cool_down_deadline", after.0.seq(d).0);
+                }
+                None => {
+                    check_bool("advertise:skipped_target_keeps_its_cool_down_deadline", false);
+                }
+            }
         }
     }
     let recipients: Vec<PeerId> = sent.iter().map(|(p, _)| *p).collect();
